@@ -555,7 +555,11 @@ func (ctx *Context) evaluate() {
 				return
 			}
 			stackPush(dict.V())
-		case typePushComputed, typePushFunction:
+		case typePushComputed:
+			// 每次求值得到一个新的计算值。字面量对象留在字节码里，直接压栈的话写在它身上的属性会被这条语句的所有求值共享
+			cd, _ := code.Value.(*VMValue).ReadComputed()
+			stackPush(NewComputedValRaw(&ComputedData{Expr: cd.Expr, code: cd.code, codeIndex: cd.codeIndex}))
+		case typePushFunction:
 			val := code.Value.(*VMValue)
 			stackPush(val)
 		case typePushNull:
